@@ -54,6 +54,10 @@ func init() {
 	// a valid document whose path item declares a body parameter with a $ref'd schema (shared by
 	// its operations) and operation-level parameters with $ref'd schemas
 	c10multi = append(c10multi,
+		// warning-only rules that no other document reaches: a required read-only property (declared, by
+		// pattern, by additionalProperties), validation keywords that do not fit the parameter type, a
+		// garbled placeholder in a path, a required parameter with a default
+		`{"swagger":"2.0","info":{"title":"t","version":"1"},"paths":{"/g/{g id}":{"get":{"operationId":"g","parameters":[{"name":"g id","in":"path","required":true,"type":"string","maxItems":2,"minimum":1},{"name":"n","in":"query","type":"integer","maxLength":3,"uniqueItems":true},{"name":"l","in":"query","type":"array","items":{"type":"string"},"pattern":"^a","multipleOf":2}],"responses":{"200":{"description":"ok","schema":{"$ref":"#/definitions/R"}}}}}},"definitions":{"R":{"type":"object","required":["ro","p_x","other"],"properties":{"ro":{"type":"string","readOnly":true}},"additionalProperties":{"type":"string","readOnly":true}},"S":{"type":"object","required":["ro2"],"properties":{"ro2":{"type":"integer","readOnly":true}}}}}`,
 		// definitions whose required names are all matched by valid pattern properties standing next to
 		// an invalid one: whether the invalid expression is reported must not depend on which pattern the
 		// iteration meets first
